@@ -162,6 +162,8 @@ class Evaluator:
                 return self.consts[e.id]
             if e.id in ("True", "False", "None"):
                 return {"True": True, "False": False, "None": None}[e.id]
+            if e.id in ("np", "numpy", "os", "sys", "math", "warnings", "pathlib"):
+                return Opaque("module:" + e.id)
             raise Unknown(f"name '{e.id}'")
         if isinstance(e, ast.JoinedStr):
             return Opaque("fstring", ())
@@ -260,6 +262,10 @@ class Evaluator:
                 args = [self.ev(a, env) for a in e.args]
                 kw = {k.arg: self.ev(k.value, env) for k in e.keywords if k.arg}
                 return self.hooks[f](*args, **kw)
+            if isinstance(e.func, ast.Attribute) and ("call:" + e.func.attr) in self.hooks:
+                args = [self.ev(a, env) for a in e.args]
+                kw = {k.arg: self.ev(k.value, env) for k in e.keywords if k.arg}
+                return self.hooks["call:" + e.func.attr](*args, **kw)
             if isinstance(e.func, ast.Attribute) and e.func.attr in ("replace", "lower", "upper", "strip", "get", "copy", "keys", "values", "items"):
                 base = self.ev(e.func.value, env)
                 args = [self.ev(a, env) for a in e.args]
